@@ -169,10 +169,8 @@ func (s *scenario) build(row authMsg, r *lib.Rand, chains []string) []payload {
 	case "/fx.erc20.v1.MsgUpdateDenomAlias":
 		return one(&erc20types.MsgUpdateDenomAlias{Denom: s.pairDenom, Alias: fmt.Sprintf("avalanche0x%040x", r.Int63())})
 	case "/fx.evm.v1.MsgCallContract":
-		data, err := contract.GetFIP20().ABI.Pack("transferOwnership", common.BigToAddress(sdkmath.NewInt(r.Int63()).BigInt()))
-		must(err)
 		// the contract's owner is the erc20 module, the caller is the evm module: use a call that any caller may make
-		data, err = contract.GetFIP20().ABI.Pack("approve", common.BigToAddress(sdkmath.NewInt(1+r.Int63()).BigInt()), sdkmath.NewInt(1+r.Int63()).BigInt())
+		data, err := contract.GetFIP20().ABI.Pack("approve", common.BigToAddress(sdkmath.NewInt(1+r.Int63()).BigInt()), sdkmath.NewInt(1+r.Int63()).BigInt())
 		must(err)
 		return one(&fxevmtypes.MsgCallContract{ContractAddress: s.erc20Free.Hex(), Data: hex.EncodeToString(data)})
 	case "/fx.gov.v1.MsgUpdateStore":
@@ -219,6 +217,7 @@ func (s *scenario) build(row authMsg, r *lib.Rand, chains []string) []payload {
 		must(err)
 		p.CommunityTax = sdkmath.LegacyNewDecWithPrec(int64(1+r.Intn(50)), 2)
 		p.WithdrawAddrEnabled = !p.WithdrawAddrEnabled
+		p.BaseProposerReward, p.BonusProposerReward = sdkmath.LegacyZeroDec(), sdkmath.LegacyZeroDec() // deprecated: must be zero
 		return one(&distrtypes.MsgUpdateParams{Params: p})
 	case "/cosmos.distribution.v1beta1.MsgCommunityPoolSpend":
 		return one(&distrtypes.MsgCommunityPoolSpend{Recipient: s.recipient.String(), Amount: sdk.NewCoins(sdk.NewCoin(fxtypes.DefaultDenom, sdkmath.NewInt(1+r.Int63n(1_000_000))))})
@@ -229,7 +228,7 @@ func (s *scenario) build(row authMsg, r *lib.Rand, chains []string) []payload {
 		p.MaxDepositPeriod = dur(time.Duration(1+r.Intn(30)) * 24 * time.Hour)
 		return one(&govv1.MsgUpdateParams{Params: p})
 	case "/cosmos.gov.v1.MsgExecLegacyContent":
-		content, err := codectypes.NewAnyWithValue(govv1beta1.NewTextProposal(fmt.Sprintf("t%d", r.Intn(1000)), "d"))
+		content, err := codectypes.NewAnyWithValue(&govv1beta1.TextProposal{Title: fmt.Sprintf("t%d", r.Intn(1000)), Description: "d"})
 		must(err)
 		return one(&govv1.MsgExecLegacyContent{Content: content})
 	case "/cosmos.mint.v1beta1.MsgUpdateParams":
